@@ -9,17 +9,30 @@ PROPS = ["MagpyVerif.Props.C18"]
 
 def run(ctx, model_ok):
     budget = 5 if len(ctx.broken) else 1
+    # tie of the tree-level copy model (Forest.copy / stepC) and of the label model to the real code
+    st, inv_fail = forest_family.run_stream(ctx, ctx.scale(150, 4000) * budget, ctx.scale(18, 24), want_model=ctx.driver_ok, p_copy=0.25)
+    ctx.failing += inv_fail
+    lst = forest_family.run_label_stream(ctx, ctx.scale(1500, 40000) * budget, ctx.scale(150, 2000), want_model=ctx.driver_ok)
+    forest_samples = st.pop("samples")
+    label_samples = lst.pop("samples")
+    ctx.cov["correspondence"] = {"forest": st, "label": lst}
+    ctx.cov["corr_samples"] = {"forest": forest_samples, "label": label_samples}
+    ctx.assumptions += ["the objects of a copied tree are numbered in pre-order of the copy's own _children lists (harness convention; "
+                        "the model numbers the clones in pre-order of the original's children lists) — equality of all dumps shows the two orders agree",
+                        "labels outside the generated alphabet (Unicode decimal digits, a trailing newline, which Python's `\\d+$` treats specially) are not modelled"]
     fails, ost = oracle.sweep(ctx, ctx.scale(64, 3000) * budget)
     ctx.failing += fails
     ctx.cov["oracle"] = ost
     ctx.cov["evaluations"] = ost["c18_copies"]
     ctx.cov["distinct_nontrivial"] = ost["c18_copies"]
-    ctx.cov["rule"] = ("copies of every class, sensors, flat and nested collections, with/without parent, lazily created or initialised styles, keyword overrides, "
+    ctx.cov["rule"] = ("forest stream: seeded histories over 3-8 objects mixing add/remove/parent=/children=/typed setters/`+` with copy() of leaves, flat and nested, owned and free collections, "
+                       "later operations addressing the clones (incl. copies of copies), every dump compared with Forest.stepC; label stream: add_iteration_suffix and obj.copy().style.label on generated names "
+                       "(letters/digits/underscores, digit runs of width 1-4 with 9/99/999/9999 roll-over, all-digit and empty names, unlabelled originals); oracle: "
+                       "copies of every class, sensors, flat and nested collections, with/without parent, lazily created or initialised styles, keyword overrides, "
                        "4 label shapes; each copy followed by mutation of both sides; every case has fresh random geometry/paths")
     ctx.cov["traces_validated_against_impl"] = ost["c18_copies"]
     ctx.cov["samples"] = [ost]
-    ctx.cov["not_shown"] = ["attribute equality, same field and absence of shared mutable state in the CPython heap: interpreter-level oracle (reachable-graph walk, np.shares_memory, mutate-and-diff)",
-                            "the tree-level copy model is not driven through the correspondence stream"]
+    ctx.cov["not_shown"] = ["attribute equality, same field and absence of shared mutable state in the CPython heap: interpreter-level oracle (reachable-graph walk, np.shares_memory, mutate-and-diff)"]
 
 
 def replay(ctx, payload):
